@@ -118,6 +118,21 @@ pub proof fn lemma_core_range(c: AdaptiveFeeConstants, v: AdaptiveFeeVariables)
     assert((r + d) * gs == r * gs + d * gs) by(nonlinear_arith);
     assert(-GROUP_BOUND() < r < GROUP_BOUND()) by(nonlinear_arith) requires -443637 - gs < r * gs <= 443636, 1 <= gs <= 0xFFFF;
 }
+/// price of the (clamped) lower boundary tick of tick group g
+pub open spec fn group_price(g: int, gs: int) -> int { price_at(clamp_tick(g * gs)) }
+pub open spec fn clamp_tick(t: int) -> int { if t < -443636 { -443636 } else if t > 443636 { 443636 } else { t } }
+pub open spec fn opt_idx(o: Option<(i32, u128)>) -> int { match o { Some(b) => b.0 as int, None => 0 } }
+pub open spec fn opt_price(o: Option<(i32, u128)>) -> u128 { match o { Some(b) => b.1, None => 0 } }
+/// spec twin of get_bounded_sqrt_price_target for an adaptive manager
+pub open spec fn bounded_target_spec(m: FeeRateManager, sqrt_price: u128, liq: u128) -> (u128, bool) {
+    let c = m->adaptive_fee_constants; let g = m->tick_group_index as int; let gs = c.tick_group_size as int; let a_to_b = m->a_to_b;
+    let lo = m->core_tick_group_range_lower_bound; let up = m->core_tick_group_range_upper_bound;
+    if c.adaptive_fee_control_factor == 0 || liq == 0 { (sqrt_price, true) }
+    else if lo is Some && g < opt_idx(lo) { if a_to_b { (sqrt_price, true) } else { (if sqrt_price <= opt_price(lo) { sqrt_price } else { opt_price(lo) }, true) } }
+    else if up is Some && g > opt_idx(up) { if a_to_b { (if sqrt_price >= opt_price(up) { sqrt_price } else { opt_price(up) }, true) } else { (sqrt_price, true) } }
+    else if a_to_b { let b = group_price(g, gs) as u128; (if sqrt_price >= b { sqrt_price } else { b }, false) }
+    else { let b = group_price(g + 1, gs) as u128; (if sqrt_price <= b { sqrt_price } else { b }, false) }
+}
 impl FeeRateManager {
     pub open spec fn wf(&self) -> bool {
         match *self {
@@ -183,7 +198,7 @@ impl FeeRateManager {
 
 //@ fn manager/fee_rate_manager.rs get_bounded_sqrt_price_target in=/^impl FeeRateManager \{/ -> r
     requires self.wf(), price_ok(sqrt_price as int),
-        *self matches FeeRateManager::Adaptive { tick_group_index, adaptive_fee_constants, .. } ==> -500_000 <= tick_group_index as int * adaptive_fee_constants.tick_group_size as int <= 500_000,
+        *self matches FeeRateManager::Adaptive { tick_group_index, adaptive_fee_constants, .. } ==> -600_000 <= tick_group_index as int * adaptive_fee_constants.tick_group_size as int <= 600_000,
     ensures
         // a static pool, a zero control factor and a zero-liquidity gap all leave the target alone
         *self is Static ==> r == (sqrt_price, false),
@@ -191,8 +206,15 @@ impl FeeRateManager {
         // the bounded target is never beyond the requested target
         *self matches FeeRateManager::Adaptive { a_to_b, .. } ==> (if a_to_b { r.0 >= sqrt_price } else { r.0 <= sqrt_price }),
         price_ok(r.0 as int),
+        // exactly: inside the core range the step is cut at the boundary of the current tick group; outside of it (accumulator saturated) it may run to the
+        // edge of the core range or, moving away from it, all the way
+        *self is Adaptive ==> r == bounded_target_spec(*self, sqrt_price, curr_liquidity),
 //@ inject at /^\{/
-    proof { axiom_price_at(); }
+    proof { axiom_price_at();
+        if let FeeRateManager::Adaptive { tick_group_index, adaptive_fee_constants, .. } = *self {
+            let g = tick_group_index as int; let gs = adaptive_fee_constants.tick_group_size as int;
+            assert((g + 1) * gs == g * gs + gs) by(nonlinear_arith);
+        } }
 //@ end
 
 //@ fn manager/fee_rate_manager.rs new in=/^impl FeeRateManager \{/ -> r
